@@ -298,7 +298,10 @@ C18Rules(r) ==
 NodeSig(n) == <<n.id, n.kind, n.name, n.text, n.hk, n.loop, n.refs>>
 EdgeBag(es) == {<<EKey(e), CountKey(es, EKey(e))>> : e \in es}
 
-Unary(v) == {x \in v.ops : v.nm[x].name \in {"union", "tee"} /\ v.nm[x].din = 1 /\ v.nm[x].dout = 1}
+\* the 1-in/1-out unions and tees that the rewrite contracts; one whose single input is its own output
+\* cannot be spliced out and must stay untouched (the partitioner then reports the same-tick cycle)
+Unary(v) == {x \in v.ops : /\ v.nm[x].name \in {"union", "tee"} /\ v.nm[x].din = 1 /\ v.nm[x].dout = 1
+                           /\ \A e \in v.es : e.d = x => e.s # x}
 RECURSIVE Follow(_, _, _, _)
 \* end of the chain of removed nodes starting with edge e: <<dst, dst port>>, or <<0, "">> for a ring
 Follow(v, rem, e, fuel) ==
@@ -311,16 +314,26 @@ Contracted(v) ==
         n == Cardinality(rem)
     IN {<<e.id, e.s, Follow(v, rem, e, n)[1], e.sp, Follow(v, rem, e, n)[2]>> : e \in keep}
 
+\* unary unions/tees lying on a ring made only of such nodes (an isolated component: every node has one
+\* input and one output).  Contracting such a ring is not defined; the rewrite may keep any part of it, but
+\* must keep at least one node so that the partitioner still sees (and reports) the same-tick cycle.
+RingNodes(v) ==
+    LET rem == Unary(v)  n == Cardinality(rem) IN
+    {x \in rem : \E e \in v.es : e.s = x /\ Follow(v, rem, e, n)[1] = 0}
+
 RewriteRules(r) ==
     LET v == View(r.G)
         v1 == View(r.G1)
-        rem == Unary(v)
-        con == Contracted(v)
+        ring == RingNodes(v)
+        rem == Unary(v) \ ring
+        con == {t \in Contracted(v) : t[2] \notin ring}
+        es1 == {e \in v1.es : e.s \notin ring}
         bagC == {<<<<t[2], t[3], t[4], t[5]>>, Cardinality({u \in con : <<u[2], u[3], u[4], u[5]>> = <<t[2], t[3], t[4], t[5]>>})>> : t \in con}
-    IN Rule({NodeSig(n) : n \in v1.ns} # {NodeSig(n) : n \in {m \in v.ns : m.id \notin rem}},
+    IN Rule({NodeSig(n) : n \in {m \in v1.ns : m.id \notin ring}} # {NodeSig(n) : n \in {m \in v.ns : m.id \notin rem /\ m.id \notin ring}},
             "C20:rewrite-changed-the-remaining-operators")
-       \cup Rule(bagC # EdgeBag(v1.es), "C20:rewrite-changed-the-port-wiring")
-       \cup Rule(Cardinality(v1.es) # Cardinality(con), "C20:rewrite-changed-the-number-of-edges")
+       \cup Rule(bagC # EdgeBag(es1), "C20:rewrite-changed-the-port-wiring")
+       \cup Rule(Cardinality(es1) # Cardinality(con), "C20:rewrite-changed-the-number-of-edges")
+       \cup Rule(ring # {} /\ ring \cap v1.ids = {}, "C20:rewrite-removed-a-whole-ring-of-unary-unions-or-tees")
 
 ModuleRules(r) ==
     IF r.mod = "none" \/ r.mod = "" THEN {}
@@ -355,7 +368,9 @@ StaleLoopMembers(r) ==
 ProgRules(r) ==
     IF r.stage \in {"parse-error", "build-error"} THEN {}
     ELSE IF r.stage = "build-panic" THEN {"C18:flat-graph-builder-panicked"}
-    ELSE IF r.stage = "rewrite-panic" THEN {"C20:rewrite-panicked"} \cup ModuleRules(r)
+    ELSE IF r.stage = "rewrite-panic"
+         THEN {"C20:rewrite-panicked" \o (IF RingNodes(View(r.G)) # {} THEN "-on-a-ring-of-unary-unions-or-tees" ELSE "")}
+              \cup ModuleRules(r)
     ELSE IF r.stage = "adjacent-handoffs" THEN RewriteRules(r) \cup ModuleRules(r)
     ELSE RewriteRules(r) \cup ModuleRules(r) \cup C19Rules(r)
          \cup (IF r.verdict = "ok"
